@@ -10,7 +10,7 @@ Decides (structural):
                  merge_all's result
   R-COMBINED-LATE combined rulesets are expanded at run time (collect_rule_ids / collect_rules callers)
 """
-from ..util import match_arms, arm_region, edge_relation, guards
+from ..util import match_arms, arm_region, edge_relation, guards, variant_is
 from .rebuild_common import natural_loops, loop_exits, leads_only_to_error
 
 EXPLANATION = (
@@ -36,7 +36,7 @@ def classify_exit(f, u, v):
     if "variant" in r:
         # discriminant of Option returned by Iterator::next
         at = f.origins(r["place"])
-        if any(a[0] == "call" and a[1].endswith("Iterator>::next") for a in at) and r["variant"] == ["0"]:
+        if any(a[0] == "call" and a[1].endswith("Iterator>::next") for a in at) and variant_is(r, 0):
             return "iter-end"
         return "other"
     if "truth" in r and r["desc"][0] == "val":
@@ -140,7 +140,7 @@ def check_until(chk, prog):
     on_some = False
     for c in cf:
         for g in guards(f, c.bb):
-            if "variant" in g and g["variant"] == ["1"]:
+            if variant_is(g, 1):
                 on_some = True
     chk.judge(ok_order and blocked and on_some, R, "egglog::EGraph::run_rules:until",
               ":until facts are checked first and a successful check returns without stepping",
